@@ -215,14 +215,25 @@ let run line =
          | _ -> failwith "pool") in
     let pf = { pf_gw = ipo pgw; pf_sid = ipo psid; pf_dns = List.map ipo pdns; pf_unnumbered = (unn = "1"); pf_lease = ni lease;
                pf_pools = pools np rest [] } in
-    let cx = { cx_addr = bx addr; cx_gw = ip_of cgw; cx_mask = (if cmask = "nil" then None else Some (bx cmask)); cx_dns = List.map ip_of cdns } in
+    (* allocation branch: the address is the implementation's choice (y=...), admissible iff inside a configured pool *)
+    let impl_y = (let toks = tokens !cur_impl in
+                  match List.find_opt (fun t -> String.length t > 2 && String.sub t 0 2 = "y=") toks with
+                  | Some t -> Some (String.sub t 2 (String.length t - 2)) | None -> None) in
+    let alloc = (addr = "alloc") in
+    let verdict = if not alloc then `Go (bx addr) else
+        (match impl_y with
+         | Some y when y <> "nil" && is_hex y -> if alloc_admissible (bx y) pf then `Go (bx y) else `Bad "INADMISSIBLE:allocated-address-outside-every-pool"
+         | _ -> if impl_head () = "noresolve" && not (has_usable_pool pf) then `Stop "noresolve"
+                else if impl_head () = "noresolve" then `Bad "INADMISSIBLE:no-address-although-a-pool-is-configured" else `Bad "INADMISSIBLE:no-address-reported") in
+    (match verdict with `Stop x -> x | `Bad x -> x | `Go a ->
+    let cx = { cx_addr = a; cx_gw = ip_of cgw; cx_mask = (if cmask = "nil" then None else Some (bx cmask)); cx_dns = List.map ip_of cdns } in
     let r = resolve_v4 cx pf in
-    let sum = Printf.sprintf "r=%s s=%s m=%s dns=%s lease=%d nr=%d opts=%s" (hxo r.rs_router) (hxo r.rs_sid) (hx r.rs_mask)
+    let sum = Printf.sprintf "y=%s r=%s s=%s m=%s" (hxo r.rs_yip) (hxo r.rs_router) (hxo r.rs_sid) (hx r.rs_mask) ^ Printf.sprintf " dns=%s lease=%d nr=%d opts=%s"
         (if r.rs_dns = [] then "-" else String.concat "," (List.map hxo r.rs_dns)) (int_of_n r.rs_lease) (List.length r.rs_routes)
         (if r.rs_opts = [] then "-" else String.concat "." (List.map (fun (c, d) -> string_of_int (int_of_n c) ^ ":" ^ hx d) r.rs_opts)) in
     let build pad = resolve_and_reply variant (ovf ()) (nat_of_int pad) (ni xid) (ip_of ci) (bx hw) (ni mt) cx pf in
     cur_impl := (match String.index_opt !cur_impl ';' with Some i when i + 2 <= String.length !cur_impl -> String.sub !cur_impl (i + 2) (String.length !cur_impl - i - 2) | _ -> !cur_impl);
-    sum ^ " ; " ^ res_frame (fun f -> sum4 f ^ " gp=" ^ gp_full (from f 28)) (build (pad_of build))
+    sum ^ " ; " ^ res_frame (fun f -> sum4 f ^ " gp=" ^ gp_full (from f 28)) (build (pad_of build)))
   | "ser6" :: ty :: tx :: cl :: sv :: na :: pd :: nd :: rest ->
     let (dns, rest) = take (int_of_string nd) rest in
     let (st, rest) = match rest with s :: r -> (s, r) | [] -> ("nil", []) in
